@@ -209,7 +209,7 @@ def run(ctx):
                       % (sc.get("name"), json.dumps({k: v for k, v in mr.items() if k != "scenario"})))
     for rr in run_bad[:3]:
         sc = rr.get("scenario", {})
-        ctx.violation("run-sequence-%s" % "-".join(sc.get("name", "?").split("/")[2:]),
+        ctx.violation("run-sequence-%s" % "-".join(sc.get("name", "?").split("/")[1:]),
                       {"kind": "run", "scenario": sc, "observed": {k: v for k, v in rr.items() if k != "scenario"}},
                       True, "forwarder.Run with a cancelled context: %s observed %s"
                       % (sc.get("name"), json.dumps({k: v for k, v in rr.items() if k != "scenario"})))
